@@ -3,10 +3,11 @@ From Coq Require Import List String.
 From VQ.Gen Require Import npinit_lfq.
 Import ListNotations.
 Open Scope string_scope.
-Lemma pin_npinit_lfq : npinit_lfq =
+Definition pinned_npinit_lfq : list string :=
   ["codebook=codebook.float()";
    "zero=torch.tensor(0.0)";
    "local codebook=self.bits_to_codes(bits)";
    "local bits=(all_codes[..., None].int() & self.mask != 0).float()";
    "local all_codes=torch.arange(codebook_size)"].
+Lemma pin_npinit_lfq : npinit_lfq = pinned_npinit_lfq.
 Proof. reflexivity. Qed.
